@@ -298,6 +298,38 @@ theorem decodeFrom_progress (r : Rd) (maxArraySize : Int) (budget : Option Nat) 
 
 /-! ### the multi-model loop of `ggufLayers` -/
 
+/-! ### typed accessors never fail once mismatches are treated as missing keys -/
+
+theorem kvString_all (kvs : List (Bytes × Val)) (key dflt : Bytes) : ∃ v, kvString Guards.all kvs key dflt = .ok v := by
+  unfold kvString
+  split
+  · exact ⟨_, rfl⟩
+  · exact ⟨_, rfl⟩
+  · exact ⟨dflt, by simp [Guards.all]⟩
+
+theorem kvUint_all (kvs : List (Bytes × Val)) (key : Bytes) (dflt : Nat) : ∃ v, kvUint Guards.all kvs key dflt = .ok v := by
+  unfold kvUint
+  split
+  · exact ⟨_, rfl⟩
+  · exact ⟨_, rfl⟩
+  · exact ⟨dflt, by simp [Guards.all]⟩
+
+theorem mediaType_all (kvs : List (Bytes × Val)) : ∃ m, mediaType Guards.all kvs = .ok m := by
+  unfold mediaType kvKind kvArchitecture
+  obtain ⟨k, hk⟩ := kvString_all kvs (bytesOf "general.type") (bytesOf "unknown")
+  obtain ⟨a, ha⟩ := kvString_all kvs (bytesOf "general.architecture") (bytesOf "unknown")
+  simp only [hk, ha, bind, Except.bind, pure, Except.pure]
+  split
+  · exact ⟨_, rfl⟩
+  · split <;> exact ⟨_, rfl⟩
+
+theorem createAccessors_all (kvs : List (Bytes × Val)) : createAccessors Guards.all kvs = .ok () := by
+  unfold createAccessors kvArchitecture
+  obtain ⟨t, ht⟩ := kvString_all kvs (bytesOf "tokenizer.chat_template") []
+  obtain ⟨a, ha⟩ := kvString_all kvs (bytesOf "general.architecture") (bytesOf "unknown")
+  obtain ⟨f, hf⟩ := kvUint_all kvs (bytesOf "general.file_type") 0
+  simp only [ht, ha, hf, bind, Except.bind, pure, Except.pure]
+
 /-- **Termination of `ggufLayers`' loop**: whenever the fuel covers the bytes still ahead, the
     loop ends by itself (each iteration moves the offset forward by at least 4 bytes). -/
 theorem ggufLayersLoop_terminates (bs : Bytes) (budget : Option Nat) (g : Guards) (hg : g.negSeek = true) (maxSeek : Nat) :
@@ -323,7 +355,9 @@ theorem ggufLayersLoop_terminates (bs : Bytes) (budget : Option Nat) (g : Guards
         simp only [] at hp
         split
         · rfl
-        · exact ih _ _ (by omega)
+        · cases hm : mediaType g d.kvs with
+          | error e => rfl
+          | ok m => exact ih _ _ (by omega)
     · rfl
 
 /-- **`ggufLayers` terminates on every byte string** (for the working tree's decoder and every
@@ -365,7 +399,9 @@ theorem ggufLayersLoop_safe (bs : Bytes) (B : Nat) (hB : 16 * bs.length ≤ B) (
         simp only []
         split
         · simp [SafeL, Safe, isBad]
-        · exact ih _ _
+        · obtain ⟨m, hm⟩ := mediaType_all d.kvs
+          rw [hm]
+          exact ih _ _
     · simp [SafeL, Safe]
 
 /-- **`ggufLayers` is safe on every byte string**: no panic, no allocation above 16 bytes per input
@@ -416,6 +452,11 @@ theorem ggufLayersLoop_within (bs : Bytes) (budget : Option Nat) (g : Guards) (m
         simp only [] at h
         split at h
         · cases h
+        cases hm : mediaType g d.kvs with
+        | error e => rw [hm] at h; cases h
+        | ok m =>
+        rw [hm] at h
+        simp only [] at h
         refine ih _ _ _ ?_ h
         intro l hl
         rcases List.mem_append.mp hl with hl | hl
@@ -474,9 +515,10 @@ theorem magic_of_decode (bs : Bytes) (m : Int) (budget : Option Nat) (g : Guards
 /-- **A file that decodes as exactly one model is taken as it is**: when the decode of the whole
     upload ends at the file length, create produces one layer that reuses the uploaded blob
     (C05: this is what the end offset is used for). -/
-theorem ggufLayers_single (bs : Bytes) (budget : Option Nat) (g : Guards) (maxSeek : Nat) (d : Decoded)
-    (hd : decode bs 0 budget g = .ok d) (hend : d.endOffset = bs.length) (hfs : bs.length ≤ maxSeek) :
-    ggufLayers bs budget g maxSeek = some (.ok [⟨0, bs.length, true, d⟩]) := by
+theorem ggufLayers_single (bs : Bytes) (budget : Option Nat) (g : Guards) (maxSeek : Nat) (d : Decoded) (m : Nat)
+    (hd : decode bs 0 budget g = .ok d) (hend : d.endOffset = bs.length) (hfs : bs.length ≤ maxSeek)
+    (hmed : mediaType g d.kvs = .ok m) :
+    ggufLayers bs budget g maxSeek = some (.ok [⟨0, bs.length, true, m, d⟩]) := by
   unfold decode at hd
   obtain ⟨h4, hm⟩ := magic_of_decode bs 0 budget g d hd
   unfold ggufLayers
@@ -490,8 +532,33 @@ theorem ggufLayers_single (bs : Bytes) (budget : Option Nat) (g : Guards) (maxSe
   unfold ggufLayersLoop
   rw [if_pos (by omega), List.drop_zero, hd]
   simp only [hend, List.nil_append]
-  rw [if_neg (by omega)]
+  rw [if_neg (by omega), hmed]
+  simp only []
   rw [ggufLayersLoop_done _ _ _ _ _ _ _ (by omega)]
   simp [hf]
+
+/-! ### the whole metadata side of create: `ggufLayers` + the accessors called on every layer -/
+
+theorem mapM_createAccessors_all (ls : List GLayer) :
+    ∃ us, ls.mapM (fun l => createAccessors Guards.all l.d.kvs) = .ok us := by
+  induction ls with
+  | nil => exact ⟨[], rfl⟩
+  | cons l ls ih =>
+    obtain ⟨us, hus⟩ := ih
+    refine ⟨() :: us, ?_⟩
+    rw [List.mapM_cons, createAccessors_all, hus]
+    rfl
+
+theorem createUpload_eq_ggufLayers (bs : Bytes) (budget : Option Nat) (maxSeek : Nat) :
+    createUpload bs budget Guards.all maxSeek = ggufLayers bs budget Guards.all maxSeek := by
+  unfold createUpload
+  cases h : ggufLayers bs budget Guards.all maxSeek with
+  | none => rfl
+  | some r =>
+    cases r with
+    | error e => rfl
+    | ok ls =>
+      obtain ⟨us, hus⟩ := mapM_createAccessors_all ls
+      simp only [hus]
 
 end OllamaVerif.Gguf
